@@ -9,6 +9,15 @@
 //! peer's writer of topic w), so that writer submessages without reader id have several candidate readers
 //! with different protection requirements.  It is chosen by TLC (MC_SecGate_*x.cfg) / the random generator,
 //! built by GateRig::new_with_matches and logged in the Reset line.
+//!
+//! Two more dimensions (strengthening round 3):
+//!  * the SHAPE of a DATA / DATAFRAG submessage (`form`): "D" serialized data, "K" serialized key (dispose /
+//!    unregister), "Q" no payload, inline QoS with key hash + status info, "DK" both flags (invalid), "0" nothing;
+//!  * the DOMAIN rule of the governance document: besides rtps_protection_kind the discovery_ and
+//!    liveliness_protection_kind, which decide the submessage protection of the builtin secure endpoints
+//!    (destinations pmsec = DCPSParticipantMessageSecure, pubsec / subsec / psec = the secure discovery topics).
+//!    A governance id is "N" | "S" | "E" (rtps kind, discovery = liveliness = ENCRYPT: governance_rtps<k>.p7s) or three
+//!    letters <rtps><discovery><liveliness> (governance_<id>.p7s).
 
 use std::collections::HashMap;
 
@@ -18,7 +27,7 @@ use serde::{Deserialize, Serialize};
 use serde_json::{json, Value};
 
 use crate::util;
-use crate::wire::{self, NumSet, Sub};
+use crate::wire::{self, NumSet, Param, Sub};
 
 fn d_none() -> String {
     "na".into()
@@ -34,6 +43,9 @@ pub struct WrapSpec {
     pub pay: String,
     /// topic whose endpoint keys protect the submessage
     pub key: String,
+    /// shape of a DATA / DATAFRAG submessage: D | K | Q | DK | 0 (see build_ent); "na" = default ("D")
+    #[serde(default = "d_none")]
+    pub form: String,
 }
 
 /// one wire position
@@ -55,6 +67,9 @@ pub struct El {
     /// idst: self|other|unknown, isrc: peer|peer2|foreign
     #[serde(default = "d_none")]
     pub who: String,
+    /// shape of a DATA / DATAFRAG submessage: D | K | Q | DK | 0 (see build_ent); "na" = default ("D")
+    #[serde(default = "d_none")]
+    pub form: String,
 }
 
 #[derive(Clone, Debug, Serialize, Deserialize)]
@@ -84,7 +99,40 @@ pub struct RunSpec {
     pub msgs: Vec<MsgSpec>,
 }
 
-pub const DESTS: [&str; 10] = ["NN", "EN", "NE", "EE", "SN", "NS", "spdp", "stateless", "volatile", "sedp"];
+pub const DESTS: [&str; 14] = ["NN", "EN", "NE", "EE", "SN", "NS", "spdp", "stateless", "volatile", "sedp", "pmsec", "pubsec", "subsec", "psec"];
+
+const PID_KEY_HASH: u16 = 0x0070;
+const PID_STATUS_INFO: u16 = 0x0071;
+
+/// (rtps, discovery, liveliness) protection kinds ("N" | "S" | "E") the governance document `gov` INTENDS
+fn gov_kinds(gov: &str) -> (String, String, String) {
+    let c: Vec<String> = gov.chars().map(|c| c.to_string()).collect();
+    if c.len() == 3 {
+        (c[0].clone(), c[1].clone(), c[2].clone())
+    } else {
+        (gov.to_string(), "E".into(), "E".into())
+    }
+}
+
+fn gov_file(gov: &str) -> String {
+    if gov.len() == 3 {
+        format!("governance_{gov}.p7s")
+    } else {
+        format!("governance_rtps{gov}.p7s")
+    }
+}
+
+/// the shape actually put on the wire for a requested form
+fn eff_form(kind: &str, form: &str) -> &'static str {
+    match (kind, form) {
+        ("DATA", "K") | ("FRAG", "K") => "K",
+        ("DATA", "Q") => "Q",
+        ("DATA", "DK") => "DK",
+        ("DATA", "0") => "0",
+        ("DATA", _) | ("FRAG", _) => "D",
+        _ => "na",
+    }
+}
 const FOREIGN: [u8; 12] = [9; 12];
 const OTHER: [u8; 12] = [5; 12];
 
@@ -121,11 +169,26 @@ impl Exec {
     }
 
     /// plain entity submessage; returns (bytes, effective pay)
-    fn build_ent(&self, id: i64, kind: &str, dst: &str, wr: &str, pay: &str) -> (Vec<u8>, String) {
+    fn build_ent(&self, id: i64, kind: &str, dst: &str, wr: &str, pay: &str, form: &str) -> (Vec<u8>, String) {
         let mut eff_pay = "na".to_string();
+        let form = eff_form(kind, form);
+        let dispose = || Param { pid: PID_STATUS_INFO, value: vec![0, 0, 0, 1] };
+        let mut both_flags = false;
         let sub = match kind {
+            // no serialized payload at all: the instance is named by the key hash in the inline QoS ("Q") / nothing ("0")
+            "DATA" if form == "Q" || form == "0" => {
+                let inline_qos = if form == "Q" {
+                    Some(vec![Param { pid: PID_KEY_HASH, value: wire::vkey_hash((id % 3) as u32).to_vec() }, dispose()])
+                } else {
+                    None
+                };
+                Sub::Data { reader: self.reader_eid(dst), writer: self.writer_eid(wr), sn: id, inline_qos, payload: None, key_flag: false }
+            }
             "DATA" | "FRAG" => {
-                let plain = wire::vsample_payload((id % 3) as u32, id as u32, &[id as u8; 8]);
+                // "K": the serialized payload is the serialized KEY (dispose / unregister)
+                let plain = if form == "K" { wire::vkey_payload((id % 3) as u32) } else { wire::vsample_payload((id % 3) as u32, id as u32, &[id as u8; 8]) };
+                let inline_qos = if form == "K" { Some(vec![dispose()]) } else { None };
+                both_flags = form == "DK";
                 let mut payload = plain.clone();
                 eff_pay = "plain".into();
                 let key_name = match pay {
@@ -146,7 +209,7 @@ impl Exec {
                     }
                 }
                 if kind == "DATA" {
-                    Sub::Data { reader: self.reader_eid(dst), writer: self.writer_eid(wr), sn: id, inline_qos: None, payload: Some(payload), key_flag: false }
+                    Sub::Data { reader: self.reader_eid(dst), writer: self.writer_eid(wr), sn: id, inline_qos, payload: Some(payload), key_flag: form == "K" }
                 } else {
                     let n = payload.len();
                     Sub::DataFrag {
@@ -157,9 +220,9 @@ impl Exec {
                         frags_in_sub: 1,
                         frag_size: n as u16,
                         sample_size: n as u32,
-                        inline_qos: None,
+                        inline_qos,
                         payload,
-                        key_flag: false,
+                        key_flag: form == "K",
                     }
                 }
             }
@@ -168,7 +231,11 @@ impl Exec {
             // ACKNACK: dst names the local WRITER, wr the sending reader
             _ => Sub::AckNack { reader: self.reader_eid(wr), writer: self.writer_eid(dst), set: NumSet::empty(1), count: id as i32, final_flag: true },
         };
-        (wire::encode_sub(&sub, true), eff_pay)
+        let mut bytes = wire::encode_sub(&sub, true);
+        if both_flags {
+            bytes[1] |= 0x0c; // D and K flag together (RTPS 9.4.5.3.1: invalid combination)
+        }
+        (bytes, eff_pay)
     }
 }
 
@@ -192,13 +259,13 @@ fn run_msg(x: &mut Exec, m: &MsgSpec, gov: &str, ev: &mut Vec<Value>) -> bool {
     for w in &m.wraps {
         let id = x.next_id;
         x.next_id += 1;
-        let (plain, eff_pay) = x.build_ent(id, &w.kind, &w.dst, &w.wr, &w.pay);
+        let (plain, eff_pay) = x.build_ent(id, &w.kind, &w.dst, &w.wr, &w.pay, &w.form);
         let mut dg = wire::encode_header(&own);
         dg.extend_from_slice(&plain);
         let parts = ep_index(&w.key).and_then(|ki| x.rig.wrap_submessage(&dg, ki, w.kind == "ACK").ok());
         // 0x30 = SEC_BODY: the submessage is hidden; otherwise (SIGN kinds) it is readable on the wire
         let opaque = parts.as_ref().map(|p| p[1].first() == Some(&0x30)).unwrap_or(true);
-        let log = json!({"id": id, "kind": w.kind, "dst": w.dst, "wr": w.wr, "pay": eff_pay, "opaque": opaque, "key": if parts.is_some() { w.key.clone() } else { "none".to_string() }});
+        let log = json!({"id": id, "kind": w.kind, "dst": w.dst, "wr": w.wr, "pay": eff_pay, "form": eff_form(&w.kind, &w.form), "opaque": opaque, "key": if parts.is_some() { w.key.clone() } else { "none".to_string() }});
         wraps.push(Wrap { id, parts, plain, log });
     }
 
@@ -216,20 +283,20 @@ fn run_msg(x: &mut Exec, m: &MsgSpec, gov: &str, ev: &mut Vec<Value>) -> bool {
             ids.push(w.id);
         }
     }
-    let blank = |t: &str| json!({"t": t, "id": 0, "kind": "na", "dst": "na", "wr": "na", "pay": "na", "w": 0, "who": "na"});
+    let blank = |t: &str| json!({"t": t, "id": 0, "kind": "na", "dst": "na", "wr": "na", "pay": "na", "form": "na", "w": 0, "who": "na"});
     for e in &m.els {
         match e.t.as_str() {
             "ent" => {
                 let id = x.next_id;
                 x.next_id += 1;
-                let (b, eff_pay) = x.build_ent(id, &e.kind, &e.dst, &e.wr, &e.pay);
+                let (b, eff_pay) = x.build_ent(id, &e.kind, &e.dst, &e.wr, &e.pay, &e.form);
                 body.extend_from_slice(&b);
                 if e.kind == "HB" {
                     hb_ids.push(id);
                 } else if is_sn(&e.kind) {
                     ids.push(id);
                 }
-                els_log.push(json!({"t": "ent", "id": id, "kind": e.kind, "dst": e.dst, "wr": e.wr, "pay": eff_pay, "w": 0, "who": "na"}));
+                els_log.push(json!({"t": "ent", "id": id, "kind": e.kind, "dst": e.dst, "wr": e.wr, "pay": eff_pay, "form": eff_form(&e.kind, &e.form), "w": 0, "who": "na"}));
             }
             "P" | "B" | "F" => {
                 let pi = match e.t.as_str() {
@@ -319,7 +386,7 @@ fn run_msg(x: &mut Exec, m: &MsgSpec, gov: &str, ev: &mut Vec<Value>) -> bool {
                         d.extend_from_slice(&enc[20..]);
                         datagram = d;
                         let mut l = vec![blank("its"), blank("X")];
-                        if gov == "S" {
+                        if gov_kinds(gov).0 == "S" {
                             l.extend(els_log.iter().cloned());
                         } else {
                             l.push(blank("X"));
@@ -367,7 +434,8 @@ fn run_msg(x: &mut Exec, m: &MsgSpec, gov: &str, ev: &mut Vec<Value>) -> bool {
 }
 
 pub fn run_one(run: usize, spec: &RunSpec, ev: &mut Vec<Value>) -> Vec<Vec<u8>> {
-    let gov_file = format!("governance_rtps{}.p7s", spec.gov);
+    let gov_file = gov_file(&spec.gov);
+    let (rtps_k, disc_k, live_k) = gov_kinds(&spec.gov);
     // the matching configuration in canonical form (known topics only, sorted, no duplicates)
     let mut xm: Vec<(String, String)> = spec.xm.iter().filter(|(d, w)| ep_index(d).is_some() && ep_index(w).is_some() && d != "stateless").cloned().collect();
     xm.sort();
@@ -387,7 +455,7 @@ pub fn run_one(run: usize, spec: &RunSpec, ev: &mut Vec<Value>) -> Vec<Vec<u8>> 
         .map(|(e, f)| json!({"name": e.name, "rsub": f.reader_sub_protected, "rpay": f.reader_payload_protected, "wsub": f.writer_sub_protected, "errs": f.setup_errors}))
         .collect();
     let xm_log: Vec<Value> = xm.iter().map(|(d, w)| json!([d, w])).collect();
-    ev.push(json!({"ev": "Reset", "run": run, "gov": spec.gov, "rtps": spec.gov != "N", "xm": xm_log, "dbg": {"rtps_protected": rig.rtps_protected, "facts": facts, "setup_errors": rig.setup_errors}}));
+    ev.push(json!({"ev": "Reset", "run": run, "gov": spec.gov, "rtps": rtps_k != "N", "disc": disc_k, "live": live_k, "xm": xm_log, "dbg": {"rtps_protected": rig.rtps_protected, "facts": facts, "setup_errors": rig.setup_errors}}));
     let mut x = Exec { rig, next_id: 1 };
     for m in &spec.msgs {
         if !run_msg(&mut x, m, &spec.gov, ev) {
@@ -459,6 +527,21 @@ fn random_xm(rng: &mut StdRng) -> Vec<(String, String)> {
     xm
 }
 
+/// shape of a DATA / DATAFRAG submessage
+fn random_form(rng: &mut StdRng, kind: &str) -> String {
+    match kind {
+        "DATA" => pick(rng, &["D", "D", "D", "D", "D", "K", "K", "Q", "Q", "DK", "0", "D"]).to_string(),
+        "FRAG" => pick(rng, &["D", "D", "D", "K"]).to_string(),
+        _ => "na".to_string(),
+    }
+}
+
+/// governance documents of the random runs: the three with discovery = liveliness = ENCRYPT and the 16 others
+const GOVS3: [&str; 16] = ["NNN", "NNS", "NNE", "NSN", "NSS", "NSE", "NEN", "NES", "ENN", "ENS", "ENE", "ESN", "ESS", "ESE", "EEN", "EES"];
+/// topics whose endpoint keys are used for protected submessages (whether they ARE submessage protected depends on
+/// the governance document; where not, the plugin declines and the submessage goes out plain)
+const WRAP_KEYS: [&str; 8] = ["EN", "EE", "SN", "volatile", "pmsec", "pubsec", "subsec", "psec"];
+
 fn random_ent(rng: &mut StdRng, xm: &[(String, String)]) -> (String, String, String, String) {
     let kind = pick(rng, &["DATA", "DATA", "FRAG", "HB", "GAP", "ACK"]);
     // a matched pair of the configuration: named reader / no reader id, writer id of the other topic
@@ -488,7 +571,7 @@ pub fn random_specs(seed: u64, runs: usize, events: usize) -> Vec<RunSpec> {
     let mut out = vec![];
     for r in 0..runs {
         let mut rng = StdRng::seed_from_u64(seed.wrapping_mul(1_000_003).wrapping_add(r as u64));
-        let gov = pick(&mut rng, &["N", "S", "E", "E"]).to_string();
+        let gov = if rng.gen_range(0..2) == 0 { pick(&mut rng, &["N", "S", "E", "E"]).to_string() } else { pick(&mut rng, &GOVS3).to_string() };
         let xm = random_xm(&mut rng);
         let mut msgs = vec![];
         for _ in 0..events {
@@ -497,19 +580,21 @@ pub fn random_specs(seed: u64, runs: usize, events: usize) -> Vec<RunSpec> {
             for _ in 0..nw {
                 let (kind, dst, wr, pay) = random_ent(&mut rng, &xm);
                 let key = match rng.gen_range(0..10) {
-                    0..=5 if ["EN", "EE", "SN", "volatile"].contains(&wr.as_str()) => wr.clone(),
-                    _ => pick(&mut rng, &["EN", "EE", "SN", "volatile"]).to_string(),
+                    0..=5 if WRAP_KEYS.contains(&wr.as_str()) => wr.clone(),
+                    _ => pick(&mut rng, &WRAP_KEYS).to_string(),
                 };
-                wraps.push(WrapSpec { kind, dst, wr, pay, key });
+                let form = random_form(&mut rng, &kind);
+                wraps.push(WrapSpec { kind, dst, wr, pay, key, form });
             }
             let mut els: Vec<El> = vec![];
-            let blank = |t: &str| El { t: t.into(), kind: "na".into(), dst: "na".into(), wr: "na".into(), pay: "na".into(), w: 0, who: "na".into() };
+            let blank = |t: &str| El { t: t.into(), kind: "na".into(), dst: "na".into(), wr: "na".into(), pay: "na".into(), w: 0, who: "na".into(), form: "na".into() };
             let n = rng.gen_range(1..=6);
             while els.len() < n {
                 match rng.gen_range(0..20) {
                     0..=8 => {
                         let (kind, dst, wr, pay) = random_ent(&mut rng, &xm);
-                        els.push(El { t: "ent".into(), kind, dst, wr, pay, w: 0, who: "na".into() });
+                        let form = random_form(&mut rng, &kind);
+                        els.push(El { t: "ent".into(), kind, dst, wr, pay, w: 0, who: "na".into(), form });
                     }
                     9..=13 if nw > 0 => {
                         // a correct triple
